@@ -38,6 +38,26 @@ def variants(rng, c):
     return out
 
 
+def inherent_variants(tier, seed):
+    """inherent-mode invocations and their rewritings: every variant must be accepted and select
+    the same items (checked against the shadow oracle of each variant, which is unaffected by
+    spelling and order)"""
+    from . import c17
+    rng = random.Random(seed + 17)
+    cases = []
+    for _ in range(6 if tier == 'quick' else 80):
+        c = c17.gen(rng)
+        cases.append(c)
+        for _ in range(2):
+            cases.append(rewrite(rng, c))
+    return c17.core(rng, 0, cases=cases)
+
+
 def run(tier, seed, replay=None):
-    return c05.run(tier, seed, replay, variants=variants, prop='C06', prefixes=('C06_',),
+    if not replay:
+        icases, istats, inon, iviol = inherent_variants(tier, seed)
+        extra = [dict(v, oracle='inherent mode, a renamed / re-ordered variant: ' + v['oracle']) for v in iviol if 'does not compile' in v['oracle'] or 'expected items' in v['oracle']]
+    else:
+        extra = []
+    return c05.run(tier, seed, replay, variants=variants, prop='C06', prefixes=('C06_',), extra_violations=extra,
                    rule='generated invocations x 5 rewritings each (consistent renaming of every block\'s lifetimes/types/consts from an adversarial pool, permuted declaration order, every bound and ?Sized moved between inline and where-clause): acceptance, implemented-table and selected items compared with the original; non-trivial = distinct accepted invocation with an implemented probe')
